@@ -81,13 +81,23 @@ func runC05(c *Ctx) {
 		depth = 4
 	}
 	c.Exhaustive = true
-	c.Rule = fmt.Sprintf("all histories of depth <= %d over 22 grouping-policy calls (single, batch, Ex, update, batch update, filtered removal, ClearPolicy, LoadPolicy, SavePolicy) on a 3-name universe, for the plain manager, the domain manager (2 domains) and two role definitions (g, g2), with an auto-saving adapter; after every call HasLink over the whole universe, GetRoles, GetUsers and the listed grouping rules are compared with the Lean model and with reachability through the listed rules (spec); all histories of the same depth over 8 batch calls on a conditional role definition (g = _, _, (_, _); implementation only: live vs rebuilt from the listed rules); plus seeded random histories incl. over-long rules; non-trivial = some call changed the graph and some call was refused; distinct = whole history", depth)
+	c.Rule = fmt.Sprintf("all histories of depth <= %d over 22 grouping-policy calls (single, batch, Ex, update, batch update, filtered removal, ClearPolicy, LoadPolicy, SavePolicy) on a 3-name universe, for the plain manager (also one installed with SetRoleManager on the empty policy, with Enforce probes), the domain manager (2 domains) and two role definitions (g, g2), with an auto-saving adapter; after every call HasLink over the whole universe, GetRoles, GetUsers and the listed grouping rules are compared with the Lean model and with reachability through the listed rules (spec); all histories of the same depth over 8 batch calls on a conditional role definition (g = _, _, (_, _); implementation only: live vs rebuilt from the listed rules); plus seeded random histories incl. over-long rules; non-trivial = some call changed the graph and some call was refused; distinct = whole history", depth)
 	names := []string{"a", "b", "c"}
 	// plain manager
 	L := [][]string{{"a", "b"}, {"b", "c"}, {"c", "a"}, {"a", "c"}}
 	cfg := &HistCfg{Name: "plain", MS: rbacSpec(false, false), Opts: CaseOpts{Adapter: true}, Depth: depth,
 		Alphabet: groupingAlphabet("g", L, []string{"b", "a"}), Probes: linkProbes("g", names, nil)}
 	enumerate(c, cfg)
+	// a role manager installed with SetRoleManager on the empty policy: the graph the listings read and the graph
+	// Enforce reads must stay one graph through every grouping call
+	enfProbes := []EOp{}
+	for _, u := range names {
+		enfProbes = append(enfProbes, EOp{Kind: "enf", Req: []V{VS(u), VS("data"), VS("read")}})
+	}
+	cfgRM := &HistCfg{Name: "plain-set-role-manager", MS: rbacSpec(false, false), Opts: CaseOpts{Adapter: true}, Depth: depth - 1,
+		Alphabet: groupingAlphabet("g", L, []string{"b", "a"}), Probes: append(linkProbes("g", names, nil), enfProbes...),
+		Setup: []EOp{{Kind: "setrm", PType: "g", NoBuild: true}, {Kind: "add", Sec: "p", PType: "p", Rule: []string{"c", "data", "read"}}}}
+	enumerate(c, cfgRM)
 	// domain manager
 	LD := [][]string{{"a", "b", "d1"}, {"b", "c", "d1"}, {"a", "b", "d2"}, {"c", "a", "d2"}}
 	cfgD := &HistCfg{Name: "domain", MS: rbacSpec(true, false), Opts: CaseOpts{Adapter: true}, Depth: depth,
